@@ -91,10 +91,57 @@ resp_hnd(coap_session_t *s, const coap_pdu_t *sent, const coap_pdu_t *rcv, const
   resp_handler_calls++;
   return COAP_RESPONSE_OK;
 }
+/* Nonce uniqueness of what the node under test emits (RFC 8613 5.2 / 8.3: under one sender key a nonce protects one message; a
+ * response may borrow the request's nonce, once).  Every protected datagram is filed under the nonce it uses - its own Partial IV,
+ * or, without one, the (kid, Partial IV) of the request being answered - and two different ciphertexts under one nonce fail. */
+static struct {
+  uint64_t key, cth;
+} nonces_used[64];
+static int nnonces;
+static uint64_t cur_req_nonce; /* of the datagram being delivered; 0 = not an OSCORE request */
+static char nonce_fail[160];
+static uint64_t
+osc_nonce_key(const refoscore_msg_t *m, int *has_piv) {
+  int oi = refoscore_msg_find(m, 9);
+  *has_piv = 0;
+  if (oi < 0)
+    return 0;
+  const uint8_t *v = refoscore_opt_val(m, oi);
+  size_t l = m->opts[oi].len;
+  unsigned n = l ? (v[0] & 7u) : 0;
+  if (!n || 1 + n > l)
+    return 1; /* protected, no Partial IV */
+  uint64_t piv = 0;
+  for (unsigned i = 0; i < n; i++)
+    piv = piv << 8 | v[1 + i];
+  *has_piv = 1;
+  return piv + 2;
+}
 static void
 on_send(const ns_dgram_t *d) {
   last_reply_len = d->len < sizeof last_reply ? d->len : sizeof last_reply;
   memcpy(last_reply, d->data, last_reply_len);
+  refoscore_msg_t outer;
+  if (refoscore_coap_decode(d->data, d->len, &outer, NULL, NULL, NULL, NULL) != REFOSCORE_OK)
+    return;
+  int has_piv;
+  uint64_t k = osc_nonce_key(&outer, &has_piv);
+  if (!k)
+    return; /* not protected */
+  uint64_t key = has_piv ? (k | 1ull << 62) : (cur_req_nonce | 1ull << 63);
+  if (!has_piv && !cur_req_nonce)
+    return;
+  uint64_t cth = vx_fnv(refoscore_payload(&outer), outer.payload_len, VX_FNV0);
+  for (int i = 0; i < nnonces; i++)
+    if (nonces_used[i].key == key) {
+      if (nonces_used[i].cth != cth && !nonce_fail[0])
+        snprintf(nonce_fail, sizeof nonce_fail, "%s", has_piv ? "own-partial-iv-twice" : "request-nonce-borrowed-for-two-different-responses");
+      return;
+    }
+  if (nnonces < 64) {
+    nonces_used[nnonces].key = key;
+    nonces_used[nnonces++].cth = cth;
+  }
 }
 
 static int
@@ -152,6 +199,15 @@ static int
 deliver(const uint8_t *b, size_t n) {
   int before = handler_calls;
   last_reply_len = 0;
+  {
+    refoscore_msg_t rq;
+    int hp;
+    cur_req_nonce = 0;
+    if (refoscore_coap_decode(b, n, &rq, NULL, NULL, NULL, NULL) == REFOSCORE_OK) {
+      uint64_t k = osc_nonce_key(&rq, &hp);
+      cur_req_nonce = hp ? k : 0;
+    }
+  }
   ns_inject_now(&cli, &srv, b, n);
   ns_prepare_all();
   while (ns_inflight_count())
@@ -169,6 +225,12 @@ echo_roundtrip(uint64_t *piv_io) {
     return 0;
   if (deliver(buf, n))
     return 2; /* accepted without challenge */
+  if (!last_reply_len)
+    return 0;
+  /* the network duplicates that first request: a second challenge, which must not be an accept (and, see on_send, must not be
+   * protected under the nonce of the first one); the client goes on with the newest Echo value */
+  if (deliver(buf, n))
+    return 0;
   if (!last_reply_len)
     return 0;
   refoscore_msg_t outer, merged;
@@ -228,6 +290,8 @@ static int
 run_history(const struct rcfg *c, const struct op *ops, int n, int *acc, struct hist *H, char *fail_sig, size_t fsl, char *fail_msg, size_t fml) {
   memset(H, 0, sizeof *H);
   nused = 0;
+  nnonces = 0;
+  nonce_fail[0] = 0;
   handler_calls = 0;
   next_mid = 0x2000;
   fail_sig[0] = 0;
@@ -426,6 +490,13 @@ case_recipient(uint64_t idx, void *arg) {
   char sig[160], msg[400];
   int r = run_history(c, ops, c->depth, acc, &H, sig, sizeof sig, msg, sizeof msg);
   end_history();
+  if (nonce_fail[0]) {
+    char ns[200];
+    snprintf(ns, sizeof ns, "nonce-reuse:b12=%d:%s", c->b12, nonce_fail);
+    vx_fail(ns, "the node protected two different messages under one nonce (%s; window %d, B.1.2 %s, first PIV %d)", nonce_fail, c->window,
+            c->b12 ? "on" : "off", c->first_piv);
+    return;
+  }
   if (r < 0) {
     vx_fail(sig, "%s", msg);
     return;
@@ -680,7 +751,7 @@ main(int argc, char **argv) {
   vx_ev_int("recipient_deliveries_accepted", (long long)vxp_counter(2));
   vx_ev_int("sender_histories", (long long)vxp_counter(4));
   vx_ev_int("sender_pivs_seen", (long long)vxp_counter(5));
-  vx_ev_rule("recipient: all delivery histories of depth 1..3 (thorough 4) after one accepted message over {fresh(+gap in 1,2,3,[31],32,33,[63],64,65,"
+  vx_ev_rule("(every protected datagram the node emits is filed under the nonce it uses - own Partial IV, or the request's - and two different ciphertexts under one nonce fail; with B.1.2 the first request is delivered twice before the Echo round trip completes) recipient: all delivery histories of depth 1..3 (thorough 4) after one accepted message over {fresh(+gap in 1,2,3,[31],32,33,[63],64,65,"
              "[200]), late(-j) never delivered, replay of the last / previous / highest-PIV / first delivery, forgery claiming PIV 0, 1, highest, "
              "highest+1, highest+70, forged response without Partial IV to a request the node itself sent on the peer's session} x replay_window {32,63 at every depth; 2,1,3,33,64 at depth <= 2 (thorough: 2,1 also at depth 3; depth 4 with 32,63 and first PIV 0 only)} x Appendix B.1.2 {off,on} x first PIV {0,5} x (depth <= 2, windows 32 and 2) a forgery arriving before the first genuine message claiming the first PIV / first+70; messages manufactured by the "
              "reference implementation; sender: ssn_freq {1,2,3,5} x start {0,4} x crash point of life 1 (after 0..7 sends, inside the 1st/2nd "
